@@ -213,7 +213,23 @@ def index_checks(ctx):
                            detail=N.show(sets[-1]["value"]) if sets else "no _index store before the element")
         if not seen:
             ctx.ob(rule, fi, False, "%s.%s: element call inside a loop not found" % (cls, meth), key="_index before element", node=fi.node)
-    ctx.floor(rule, 7)
+    # what a repeater leaves in the scope after its loop is the same in both directions: the shape of its context writes
+    # (key, inside / outside the element loop) agrees between _parse and _build, so this._index read after the repeater resolves the same way
+    def shape(cls, meth):
+        fi, paths = method_paths(ctx, cls, meth)
+        out = set()
+        for p in paths:
+            for e in p.events:
+                if e.kind in ("CTXSET", "CTXUPDATE") and not e.depth and e.a.get("ctx") == CTX:
+                    key = e["key"] if e.kind == "CTXSET" else ("update",)
+                    val = "index" if (e.kind == "CTXSET" and e["value"][0] == "idx") else ("other" if e.kind == "CTXSET" else "")
+                    out.add((N.show(key), "in loop" if e.loops else "outside loop", val))
+        return fi, out
+    for cls in ("Array", "GreedyRange", "RepeatUntil"):
+        fp, sp = shape(cls, "_parse")
+        fb, sb = shape(cls, "_build")
+        ctx.ob(rule, fb, sp == sb, "%s writes the same context entries in the same places when parsing %s and when building %s" % (cls, sorted(sp), sorted(sb)), key="%s context writes agree" % cls)
+    ctx.floor(rule, 10)
 
 
 def entry_checks(ctx):
@@ -304,6 +320,8 @@ def run(ctx):
     ctx.floor("C07.R2", 150)
 
     entry_checks(ctx)
+    from . import C17
+    C17.entry_delegation(ctx, "C07.R3")      # the byte/file entry points hand the same keyword arguments (_params) on as the stream entry points
     member_store_checks(ctx)
     ctx.floor("C07.R4", 15)
     index_checks(ctx)
